@@ -1,6 +1,7 @@
 (* C28 — Function IDs are unique and released when programs finish.
    Only theorem statements here; proofs live in Proof/Fid.v. *)
-From Murex Require Import Base.Outcome Base.Bytes Model.RunMode Model.Fid Check.C28 Proof.Fid.
+From Coq Require Import Permutation.
+From Murex Require Import Base.Outcome Base.Bytes Model.RunMode Model.Fid Model.FidTree Check.C28 Proof.Fid Proof.FidTree.
 
 (* Under EVERY schedule (any interleaving of Register / Deregister operations of
    any number of goroutines) the ids that are issued are pairwise distinct and
@@ -38,6 +39,40 @@ Theorem C28_block_released : forall h0 m ps t,
 Proof. exact block_released. Qed.
 Print Assumptions C28_block_released.
 
+(* ---- Fork / Execute pairing, any nesting --------------------------- *)
+
+(* For EVERY tree of forks - each node a Fork (registered or not) whose Execute
+   compiles a process list and runs it under any run mode, each process that ran
+   making any number of further forks (if / foreach / switch / sub-shells /
+   function calls / try) - the operations of the tree register the handles
+   h .. h'-1, each exactly once, and deregister exactly those, each exactly once. *)
+Theorem C28_tree_registered_released_once : forall t h,
+  let ops := fst (tree_ops h t) in let h' := snd (tree_ops h t) in
+  regs_of ops = seq h (h' - h) /\ Permutation (deregs_of ops) (regs_of ops).
+Proof. exact tree_registered_once. Qed.
+Print Assumptions C28_tree_registered_released_once.
+
+(* ... nothing is left open (whatever was open before stays as it was) ... *)
+Theorem C28_tree_balanced : forall t h,
+  balanced (fst (tree_ops h t)) h (snd (tree_ops h t)).
+Proof. exact tree_ops_balanced. Qed.
+Print Assumptions C28_tree_balanced.
+
+(* ... so after the whole tree has run the FID table holds exactly the ids it
+   held before. *)
+Theorem C28_tree_released : forall t tab,
+  (forall x, In x (live tab) -> (x <= latest tab)%N) ->
+  forall x, In x (live (fst (run_ops (tab, []) (fst (tree_ops 0 t))))) <-> In x (live tab).
+Proof. exact tree_released. Qed.
+Print Assumptions C28_tree_released.
+
+(* the number of ids a tree consumes is tree_count (compared with the FID
+   counter of the implementation on every generated nested program) *)
+Theorem C28_tree_count : forall t h,
+  snd (tree_ops h t) - h = tree_count t /\ h <= snd (tree_ops h t).
+Proof. exact tree_ops_count. Qed.
+Print Assumptions C28_tree_count.
+
 (* a function call whose parameters fail to cast releases its fork ... *)
 Theorem C28_failed_cast_call_released : forall t h,
   (forall x, In x (live t) -> (x <= latest t)%N) ->
@@ -58,6 +93,19 @@ Example C28_nonvacuous :
   let ops := [OReg 0; OReg 1; OReg 7; ODereg 1; OReg 8; ODereg 7; ODereg 0; ODereg 8] in
   fresh_regs [] ops = true /\ open_after [] ops = [] /\
   issued t ops = [6; 7; 8; 9]%N /\ live (fst (run_ops (t, []) ops)) = [2; 5]%N /\
-  spec_ok {| k_progs := []; k_exact := false; k_issued := 4; k_leaked := 1; k_dup := false |} = false /\
-  spec_ok {| k_progs := []; k_exact := false; k_issued := 4; k_leaked := 0; k_dup := true |} = false.
+  spec_ok {| k_progs := []; k_trees := []; k_exact := false; k_issued := 4; k_leaked := 1; k_dup := false |} = false /\
+  spec_ok {| k_progs := []; k_trees := []; k_exact := false; k_issued := 4; k_leaked := 0; k_dup := true |} = false.
+Proof. repeat split; reflexivity. Qed.
+
+(* a concrete nested tree: a function fork (registered) whose second process forks
+   twice under try; the first child aborts after its first process *)
+Example C28_tree_nonvacuous :
+  let p e := {| p_method := false; p_and := false; p_or := false;
+                p_cmd := {| c_exit := e; c_tok := []; c_fwd := false; c_err := [] |} |} in
+  let t := FNode true RmNormal [p 0%Z; p 0%Z]
+             [FNode false RmBlockTry [p 1%Z; p 0%Z] [FNode true RmNormal [p 0%Z] [] []] [1%nat];
+              FNode false RmNormal [p 0%Z] [] []] [1%nat; 1%nat] in
+  tree_count t = 6%nat /\
+  regs_of (fst (tree_ops 0 t)) = [0; 1; 2; 3; 4; 5]%nat /\
+  open_after [] (fst (tree_ops 0 t)) = [].
 Proof. repeat split; reflexivity. Qed.
